@@ -143,6 +143,35 @@ def run(ctx):
     sk = ctx.fn(FS + ".save_kwargs")
     call = [c for c in walk_no_nested(sk.node) if isinstance(c, ast.Call) and call_name(c) == "save_to_json"]
     ctx.ob("R-ORDER", "C19.2", sk, "config.json is written through save_to_json without replacing the encoder (classes, pools, callbacks fall back to str)", len(call) == 1 and not [k for k in call[0].keywords if k.arg == "cls"] and match_expr("os.path.join(self.output, 'config.json')", call[0].args[1]) is not None, "")
+    # json options that make the writer partial (or lossy) on the dictionaries the package writes: sort_keys=True raises
+    # TypeError on a dictionary with keys of mixed type (`reparameterisations={"x": .., None: ..}` in config.json) and
+    # leaves a truncated file; skipkeys=True drops entries; allow_nan=False raises on NaN / inf (legal evidence values)
+    _safe_opt = {"sort_keys": False, "skipkeys": False, "allow_nan": True}
+    n_json = 0
+    for f_ in prog.all_functions:
+        for c_ in walk_no_nested(f_.node):
+            if not isinstance(c_, ast.Call):
+                continue
+            nm_ = call_name(c_) or ""
+            is_writer = nm_ in ("save_to_json", "json.dump", "json.dumps") or nm_.endswith(".save_to_json")
+            is_opts = f_ is sj and (nm_ == "dict" or nm_.endswith(".update"))
+            if not (is_writer or is_opts):
+                continue
+            if is_writer:
+                n_json += 1
+            kws_ = [(k_.arg, k_.value) for k_ in c_.keywords if k_.arg is not None]
+            for k_ in c_.keywords:
+                if k_.arg is None and isinstance(k_.value, ast.Dict):
+                    kws_ += [(a_.value, b_) for a_, b_ in zip(k_.value.keys, k_.value.values) if isinstance(a_, ast.Constant)]
+            badk = [(a_, src(b_)) for a_, b_ in kws_ if a_ in _safe_opt and not (isinstance(b_, ast.Constant) and b_.value is _safe_opt[a_])]
+            if is_writer or badk:
+                ctx.ob("R-ORDER", "C19.2", f_, "a JSON writer is not given an option that makes it fail or drop entries on legal dictionaries (sort_keys / skipkeys / allow_nan=False)", not badk, f"`{src(c_)[:70]}`" + (f": {badk}" if badk else ""), node=c_)
+    for d_ in walk_no_nested(sj.node):
+        if isinstance(d_, ast.Dict):
+            badk = [(a_.value, src(b_)) for a_, b_ in zip(d_.keys, d_.values) if isinstance(a_, ast.Constant) and a_.value in _safe_opt and not (isinstance(b_, ast.Constant) and b_.value is _safe_opt[a_.value])]
+            if badk:
+                ctx.ob("R-ORDER", "C19.2", sj, "a JSON writer is not given an option that makes it fail or drop entries on legal dictionaries (sort_keys / skipkeys / allow_nan=False)", False, f"`{src(d_)[:70]}`: {badk}", node=d_)
+    ctx.require(n_json >= 3, f"only {n_json} JSON writer calls found in the package")
     ctx.floor("C19.2", 8)
 
     # ---- C19.3 HDF5 leaves ----------------------------------------------------------
@@ -289,6 +318,7 @@ MUTANTS = [
     {"id": "extension-not-appended", "file": _FSF, "old": '        elif ext == "":\n            filename = ".".join([filename, extension])\n', "new": "", "expect": "extension handling"},
     {"id": "encoder-float-dropped", "file": _IOF, "old": "        elif isinstance(obj, np.floating):\n            return float(obj)\n", "new": "", "expect": "floating"},
     {"id": "encoder-no-fallback", "file": _IOF, "old": "        elif not is_jsonable(obj):\n            return str(obj)\n        else:\n            return super().default(obj)", "new": "        else:\n            return super().default(obj)", "expect": "not is_jsonable"},
+    {"id": "config-sorted-keys", "file": "nessai/flowsampler.py", "old": "        save_to_json(d, os.path.join(self.output, \"config.json\"))", "new": "        save_to_json(d, os.path.join(self.output, \"config.json\"), sort_keys=True)", "expect": "C19.2"},
     {"id": "encoder-path-without-return", "file": _IOF, "old": "        elif isinstance(obj, np.ndarray):\n            return obj.tolist()", "new": "        elif isinstance(obj, np.ndarray):\n            obj = obj.tolist()", "expect": "C19.2"},
     {"id": "json-writer-without-encoder", "file": _IOF, "old": "        indent=4,\n        cls=NessaiJSONEncoder,\n    )", "new": "        indent=4,\n    )", "expect": "always installs NessaiJSONEncoder"},
     {"id": "hdf5-leaf-unencoded", "file": _IOF, "old": "            hdf5_file[path + key] = encode_for_hdf5(value)", "new": "            hdf5_file[path + key] = value", "expect": "every leaf value passes through encode_for_hdf5"},
